@@ -3,7 +3,7 @@
    Gen/GenCopies.v (the copy-vs-share tables of SEVM.create_branch, SEVM.run_message,
    Path.branch, Path.extend_path, KeccakRegistry.copy, State.__deepcopy__) is regenerated
    from /repo/src/halmos/sevm.py on every run. *)
-From Coq Require Import String ZArith List Bool.
+From Coq Require Import String ZArith List Bool Lia.
 From HV Require Import Gen.GenCopies Spec.IsolationSpec Model.IsolationModel Proofs.IsolationProofs.
 Import ListNotations.
 Open Scope Z_scope.
@@ -79,6 +79,58 @@ Theorem C20_rename_collision_refuted :
   exists (r : Z -> Z) (q : term), sat q /\ ~ sat (rename r q).
 Proof. exact rename_collision_refuted. Qed.
 Print Assumptions C20_rename_collision_refuted.
+
+
+(* ---------------------------------------------------------------- sibling paths / derived states *)
+
+(* In the object-store model, for each of the four tables t (create_branch, run_message,
+   Path.branch, Path.extend_path -- in fact for any table), after the new state has been derived
+   from the old one, ANY sequence of in-place writes performed through the OLD state (which
+   keeps running as the other sibling) leaves the content of every field of the NEW state
+   unchanged, down to the depth that field was copied. *)
+Theorem C20_siblings :
+  forall (t : list (string * copykind)) (h : heap) (olds : list val) (h1 : heap) (news : list val) (ops : list op),
+    wf_heap h -> Forall (wf_val (length h)) olds -> derive t h olds = (h1, news) ->
+    forall i d v', nth_error (depths t) i = Some d -> nth_error news i = Some v' ->
+      view d (run_ops olds ops h1) v' = view d h1 v'.
+Proof. exact old_writes_invisible. Qed.
+Print Assumptions C20_siblings.
+
+(* Conversely any sequence of writes through the NEW state (a sibling path, or a whole test
+   started by run_message from the post-setUp / frontier state) leaves every field of the OLD
+   state unchanged down to the copied depth, provided the old state's objects down to that depth
+   (P) are private to it: nothing else refers to them, and they are not referred to again from
+   below the copied levels.  Fields copied to depth 0 (Model.shared_fields) are the ones through
+   which writes ARE visible (C20_nonvacuous_store shows one). *)
+Theorem C20_siblings_converse :
+  forall (t : list (string * copykind)) (h : heap) (olds : list val) (h1 : heap) (news : list val) (ops : list op)
+         (P : nat -> Prop),
+    wf_heap h -> Forall (wf_val (length h)) olds -> derive t h olds = (h1, news) ->
+    (forall l, P l -> (l < length h)%nat) ->
+    no_ptr_into P h ->
+    (forall i d v, nth_error (depths t) i = Some d -> nth_error olds i = Some v ->
+       inside d h P v /\ forall r, at_level d h v r -> ~ P r) ->
+    forall i d v, nth_error (depths t) i = Some d -> nth_error olds i = Some v ->
+      view d (run_ops news ops h1) v = view d h v.
+Proof. exact new_writes_invisible. Qed.
+Print Assumptions C20_siblings_converse.
+
+(* a two-field state: field 0 (deep-copied) owns objects 1 -> 0, field 1 (shared) refers to
+   object 2.  Writes through the copy: into its own inner object, and into the shared object. *)
+Example C20_nonvacuous_store :
+  let h : heap := [[(0, I 5)]; [(0, R 0%nat); (1, I 1)]; [(0, I 9)]] in
+  let olds := [R 1%nat; R 2%nat] in
+  let t := [("storage", Deep); ("known_keys", Share)]%string in
+  let P := fun l => (l < 2)%nat in
+  let ops := [OSet 0 [0] 0 77; OSet 1 [] 0 88] in
+  wf_heap h /\ no_ptr_into P h /\
+  (forall i d v, nth_error (depths t) i = Some d -> nth_error olds i = Some v ->
+     inside d h P v /\ forall r, at_level d h v r -> ~ P r) /\
+  view 8 (run_ops (snd (derive t h olds)) ops (fst (derive t h olds))) (R 1%nat) = view 8 h (R 1%nat) /\
+  view 8 (run_ops (snd (derive t h olds)) ops (fst (derive t h olds))) (nth 0 (snd (derive t h olds)) (I 0))
+    <> view 8 (fst (derive t h olds)) (nth 0 (snd (derive t h olds)) (I 0)) /\
+  view 1 (run_ops (snd (derive t h olds)) ops (fst (derive t h olds))) (R 2%nat) <> view 1 h (R 2%nat).
+Proof. exact store_example. Qed.
 
 (* ---------------------------------------------------------------- copy tables (regenerated) *)
 
